@@ -110,7 +110,7 @@ def cases(tier, seed):
 def _heavy(c):
     """members that need more than the quick budget (thorough tier only)"""
     d, sem = c["circuit"], c["semiring"]
-    if d.get("algo") == "qg" and d.get("sp") == "tucker" and sem == "lse-sum":
+    if d.get("algo") == "qg" and sem == "lse-sum":
         return True
     if (d.get("freeze") or d.get("kind") == "rg" or (d.get("kind") == "pipe" and d["ops"][0][0] == "square")) and sem == "complex-lse-sum":
         return True
